@@ -375,6 +375,10 @@ val blend_quad : quad -> quad -> quad
 
 val set_plane : grid -> nat -> quad -> cells_t -> n -> grid
 
+val merge_cells :
+  cells_t -> nat -> nat -> nat -> nat -> nat -> nat -> nat -> nat -> nat ->
+  cells_t
+
 val merge_quads : grid -> nat -> quad -> grid
 
 type qref =
